@@ -28,12 +28,14 @@ def fns(file, fl, self_ty="", trait="", extra="", header=""):
 
 
 def fn(name, ret="", requires=(), ensures=(), mode="verify", closures=None, loops=None, subst=None,
-       attrs="", proof_prologue="", proof_epilogue="", iter_loops=None, label="", opaque_quotes=(), tail_from="", tail_call="", method_helpers=None, chain_helpers=None):
+       attrs="", proof_prologue="", proof_epilogue="", iter_loops=None, label="", opaque_quotes=(), tail_from="", tail_call="", method_helpers=None, chain_helpers=None,
+       block_call_from="", block_call=""):
     return {"name": name, "ret": ret, "requires": list(requires), "ensures": list(ensures),
             "mode": mode, "closures": closures or {}, "loops": loops or {}, "subst": subst or [],
             "attrs": attrs, "proof_prologue": proof_prologue, "proof_epilogue": proof_epilogue,
             "iter_loops": iter_loops or {}, "label": label, "opaque_quotes": list(opaque_quotes),
-            "tail_from": tail_from, "tail_call": tail_call, "method_helpers": method_helpers or {}, "chain_helpers": chain_helpers or {}}
+            "tail_from": tail_from, "tail_call": tail_call, "method_helpers": method_helpers or {}, "chain_helpers": chain_helpers or {},
+            "block_call_from": block_call_from, "block_call": block_call}
 
 
 def table(what, file, name):
@@ -838,6 +840,8 @@ def top_units():
                          ensures=["jo_wf(r)", "new_fields_ok(r, branches@, branches@.len() as int)",
                                   "r.branch_count == branch_count", "r.config == config", "r.handler == handler",
                                   "r.futures_crate_path == futures_crate_path", "r.custom_joiner == custom_joiner",
+                                  "r.lazy_branches == doc_lazy_default(lazy_branches, is_spawn, is_async)",
+                                  "r.transpose == doc_transpose_default(custom_transpose_results, is_try, is_async)",
                                   "forall|b: int| 0 <= b < r.depths@.len() ==> (#[trigger] r.depths@[b]) <= r.max_step_count",
                                   "exists|b: int| 0 <= b < r.depths@.len() && r.depths@[b] == r.max_step_count"],
                          chain_helpers={"into_iter.unzip": "vec_unzip({})", "iter.max": "vec_max(&{})"},
@@ -860,6 +864,26 @@ def top_units():
                              "forall|b: int| 0 <= b < __i ==> (#[trigger] __a@[b]).0 == split_steps(%s, %s.len() as int).len()" % (MSB % "b", MSB % "b"),
                              "forall|b: int| 0 <= b < __i ==> match branches@[b].ident { Some(p) => (#[trigger] __a@[b]).1 == Some(&p), None => __a@[b].1 is None }",
                          ], "body_prologue": "proof { assert(__it@[__i as int] == branches@[__i as int]); }"}})})
+    # JoinOutput::new as a WHOLE: the guard chain around the field block (R15 block call-out to `new_fields`, which is
+    # verified above from the same bytes) - what is rejected, and that everything accepted is a well-formed JoinOutput
+    u.append(fns(F_JO, [fn("new", "r", label="JoinOutput::new",
+        requires=["forall|b: int| 0 <= b < branches@.len() ==> (#[trigger] branches@[b]).members@.len() < usize::MAX",
+                  "forall|b: int| 0 <= b < branches@.len() ==> branch_steps_ok((#[trigger] branches@[b]).members@)"],
+        ensures=[
+            # C13 / C15: rejected exactly when the documented guard says so (wrong handler kind, futures path on a sync macro, no branch)
+            "(r is Err) == (doc_guard(config.is_try, config.is_async, handler_kind(handler), futures_crate_path is Some, branches@.len() as int) != 0)",
+            # everything accepted is well-formed (precondition of to_tokens) and carries the caller's arguments in the right fields
+            "r is Ok ==> jo_wf(r->Ok_0) && new_fields_ok(r->Ok_0, branches@, branches@.len() as int)",
+            "r is Ok ==> r->Ok_0.branch_count == branches@.len() && r->Ok_0.config == config && r->Ok_0.handler == handler "
+            "&& r->Ok_0.futures_crate_path == futures_crate_path && r->Ok_0.custom_joiner == custom_joiner",
+            # C16: option defaults
+            "r is Ok ==> r->Ok_0.lazy_branches == doc_lazy_default(lazy_branches, config.is_spawn, config.is_async)",
+            "r is Ok ==> r->Ok_0.transpose == doc_transpose_default(custom_transpose_results, config.is_try, config.is_async)",
+        ],
+        block_call_from="let (depths_and_paths, chains)",
+        block_call="Self::new_fields(handler, futures_crate_path, custom_joiner, custom_transpose_results, lazy_branches, config, branches, branch_count, is_async, is_try, is_spawn)",
+        subst=[{"find": "\n    where\n        Self: Sized,", "replace": "", "why": "trivial where-clause dropped (Self is a struct)", "sig": True}],
+    )], self_ty="JoinOutput", header="impl<'a> JoinOutput<'a>"))
     return u
 
 
@@ -1110,7 +1134,7 @@ OBLIGATIONS = {
             ("core", "InitialExpr::replace_inner_exprs"), ("core", "ActionExpr::replace_inner_exprs"),
             ("core", "ExprGroup::replace_inner_exprs")],
     # the `~` mark (Deferred) reaches the generator unchanged: suffix of parse_until, parse_stream, the wrapper placeholder
-    "C03": [("gen", "JoinOutput::wrap_into_block"), ("top", "JoinOutput::new_fields"), ("top", "lemma_new_fields"), ("step", "JoinOutput::generate_step"), ("step", "lemma_apos_step"), ("step", "lemma_apos_ends"), ("gen", "JoinOutput::generate_step_branch"), ("steps", "JoinOutput::generate_steps"), ("gen", "JoinOutput::split_branch_steps"), ("gen", "vec_last_push"), ("parse", "parse_until_suffix"), ("parse", "ActionGroup::parse_stream"), ("core", "ActionGroup::to_wrapper_action_expr"),
+    "C03": [("gen", "JoinOutput::wrap_into_block"), ("top", "JoinOutput::new"), ("top", "JoinOutput::new_fields"), ("top", "lemma_new_fields"), ("step", "JoinOutput::generate_step"), ("step", "lemma_apos_step"), ("step", "lemma_apos_ends"), ("gen", "JoinOutput::generate_step_branch"), ("steps", "JoinOutput::generate_steps"), ("gen", "JoinOutput::split_branch_steps"), ("gen", "vec_last_push"), ("parse", "parse_until_suffix"), ("parse", "ActionGroup::parse_stream"), ("core", "ActionGroup::to_wrapper_action_expr"),
             ("core", "ActionGroup::new"), ("core", "ExprGroup::application_type"), ("core", "ExprGroup::new")],
     "C06": [("top", "JoinOutput::new_fields"), ("top", "lemma_new_fields"), ("steps", "JoinOutput::generate_steps"), ("steps", "JoinOutput::join_steps"), ("steps", "lemma_join_comma"), ("steps", "lemma_count_take_step"), ("gen", "JoinOutput::split_branch_steps"), ("parse", "parse_until_suffix"), ("parse", "ActionGroup::parse_stream"), ("core", "ActionGroup::to_wrapper_action_expr"),
             ("core", "ActionGroup::new"), ("core", "ExprGroup::application_type"), ("core", "ExprGroup::new")],
@@ -1118,7 +1142,7 @@ OBLIGATIONS = {
             ("gen", "JoinOutput::is_branch_active_in_step"), ("gen", "JoinOutput::generate_indexed_step_results_name"),
             ("gen", "JoinOutput::branch_result_name"), ("gen", "JoinOutput::branch_result_pat")],
     "C07": [("gen", "JoinOutput::wrap_into_block"), ("steps", "JoinOutput::generate_thread_builders_and_spawn_joiners"), ("steps", "JoinOutput::generate_step_tail"), ("steps", "lemma_concat_all"), ("entries", "lemma_entry_table"), ("top", "JoinOutput::to_tokens"), ("gen", "JoinOutput::generate_step_branch")],
-    "C13": [("top", "JoinOutput::to_tokens"), ("guards", "Handler::is_map"), ("guards", "Handler::is_then"), ("guards", "Handler::is_and_then"), ("guards", "new_guards"), ("gen", "JoinOutput::generate_handle"), ("gen", "JoinOutput::extract_results_tuple"), ("gen", "JoinOutput::generate_results_transposer")],
+    "C13": [("top", "JoinOutput::new"), ("top", "JoinOutput::to_tokens"), ("guards", "Handler::is_map"), ("guards", "Handler::is_then"), ("guards", "Handler::is_and_then"), ("guards", "new_guards"), ("gen", "JoinOutput::generate_handle"), ("gen", "JoinOutput::extract_results_tuple"), ("gen", "JoinOutput::generate_results_transposer")],
     "C09": [("gen", "JoinOutput::expand_process_expr"), ("steps", "JoinOutput::generate_step_tail"), ("top", "JoinOutput::to_tokens"), ("step", "JoinOutput::generate_step"), ("step", "lemma_apos_step"), ("step", "lemma_apos_ends"), ("gen", "JoinOutput::generate_step_branch")],
     # the steps of every kind sit in a plain block of the scope the macro is called in (no closure / thread / box of
     # the macro's own between the caller's locals and the branch expressions)
@@ -1131,13 +1155,13 @@ OBLIGATIONS = {
     "C05": [("steps", "JoinOutput::join_steps"), ("steps", "lemma_join_comma"), ("steps", "lemma_count_take_step"), ("gen", "JoinOutput::generate_results_transposer"), ("parse", "parse_until_suffix"), ("parse", "ActionGroup::parse_stream"),
             ("core", "ActionGroup::to_wrapper_action_expr"), ("core", "ActionGroup::new"), ("core", "ExprGroup::application_type")],
     "C12": [("sep", "JoinOutput::separate_block_expr_process"), ("sep", "JoinOutput::separate_block_expr_err"), ("sep", "JoinOutput::separate_block_expr_initial"), ("sep", "lemma_sep_step"), ("steps", "JoinOutput::join_steps"), ("steps", "lemma_join_comma"), ("steps", "lemma_count_take_step"), ("builder", "ActionExprChainBuilder::build_from_parse_stream"), ("gen", "JoinOutput::branch_result_name"), ("gen", "JoinOutput::branch_result_pat")],
-    "C15": [("top", "JoinOutput::new_fields"), ("top", "lemma_new_fields"), ("steps", "JoinOutput::generate_steps"), ("gen", "lemma_split_balance"), ("gen", "lemma_accepted_chain_never_underflows"), ("gen", "JoinOutput::split_branch_steps"), ("gen", "JoinOutput::generate_step_branch"), ("parse", "parse_until_suffix"), ("builder", "ActionExprChainBuilder::build_from_parse_stream"), ("builder", "ActionExprChain::append_member"),
+    "C15": [("top", "JoinOutput::new"), ("top", "JoinOutput::new_fields"), ("top", "lemma_new_fields"), ("steps", "JoinOutput::generate_steps"), ("gen", "lemma_split_balance"), ("gen", "lemma_accepted_chain_never_underflows"), ("gen", "JoinOutput::split_branch_steps"), ("gen", "JoinOutput::generate_step_branch"), ("parse", "parse_until_suffix"), ("builder", "ActionExprChainBuilder::build_from_parse_stream"), ("builder", "ActionExprChain::append_member"),
             ("builder", "lemma_append_facts"), ("builder", "lemma_balanced_depth"),
             ("gen", "JoinOutput::wrap_last_step_stream"), ("gen", "JoinOutput::process_step_action_expr"),
             ("gen", "JoinOutput::generate_def_and_step_streams"), ("gen", "JoinOutput::expand_process_expr"),
             ("core", "ProcessExpr::to_tokens")],
     "C14": [("parse", "parse_until_suffix"), ("det", "lemma_first_match_is_longest"), ("optable", "lemma_operator_tables")],
-    "C16": [("gen", "JoinOutput::generate_handle"), ("gen", "JoinOutput::generate_step_branch"), ("steps", "JoinOutput::generate_step_tail"), ("guards", "new_init_lazy_branches"), ("guards", "new_init_transpose")],
+    "C16": [("top", "JoinOutput::new"), ("gen", "JoinOutput::generate_handle"), ("gen", "JoinOutput::generate_step_branch"), ("steps", "JoinOutput::generate_step_tail"), ("guards", "new_init_lazy_branches"), ("guards", "new_init_transpose")],
     "C17": [("sep", "is_block_expr"), ("sep", "JoinOutput::separate_block_expr_process"), ("sep", "JoinOutput::separate_block_expr_err"), ("sep", "JoinOutput::separate_block_expr_initial"), ("sep", "lemma_sep_step")] + [("names", "lemma_names_never_clash"), ("names", "lemma_names_table"), ("names", "lemma_name3_injective"), ("names", "lemma_name1_injective"), ("names", "lemma_distinguishable"), ("names", "lemma_names_strlits"), ("gen", "JoinOutput::generate_def_and_step_streams")] + [("core", n) for n in ['construct_var_name', 'construct_step_results_name', 'construct_result_name', 'construct_thread_builder_name', 'construct_inspect_fn_name', 'construct_spawn_tokio_fn_name', 'construct_results_name', 'construct_handler_name', 'construct_internal_value_name', 'construct_thread_builder_fn_name', 'construct_expr_wrapper_name']],
     "C20": [("core", n) for n in ['construct_var_name', 'construct_step_results_name', 'construct_result_name', 'construct_thread_builder_name', 'construct_inspect_fn_name', 'construct_spawn_tokio_fn_name', 'construct_results_name', 'construct_handler_name', 'construct_internal_value_name', 'construct_thread_builder_fn_name', 'construct_expr_wrapper_name']],
     "C10": [("sep", "JoinOutput::separate_block_expr_process"), ("sep", "JoinOutput::separate_block_expr_err"), ("sep", "JoinOutput::separate_block_expr_initial"), ("sep", "is_block_expr"), ("sep", "err_is_replaceable"), ("sep", "initial_is_replaceable"), ("sep", "lemma_sep_step"), ("sep", "lemma_defs_empty"), ("sep", "lemma_any_block_upto_step")] + [("core", "ProcessExpr::is_replaceable"), ("core", "ProcessExpr::replace_inner_exprs"), ("core", "ErrExpr::replace_inner_exprs"),
